@@ -18,6 +18,14 @@ func init() {
 				cfg := srvCfg{prop: "C08", nConns: t.Range(2, 4), nDialled: t.Draw(2), msgsPer: [2]int{1, 6}, parkPct: 60, answerPct: 30, bigMsgs: true, doubleConn: true, deferPct: 20}
 				newSrvWorld(e, cfg).run()
 			}},
+			{Name: "serve-stalled-peers", Weight: 2, Bubble: true, Run: func(e *Env) {
+				// peers that stop reading (answers stall in the transport), connections that
+				// die with unread input, and a connection opened afterwards
+				t := e.T
+				cfg := srvCfg{prop: "C08", nConns: t.Range(3, 5), nDialled: t.Draw(2), msgsPer: [2]int{1, 4}, parkPct: 20, answerPct: 90, bigMsgs: true,
+					stallPct: 45, malformed: t.Chance(1, 2), lateConn: true}
+				newSrvWorld(e, cfg).run()
+			}},
 			{Name: "sctp-association", Weight: 1, Bubble: true, Run: func(e *Env) { c19RunX(e, false, nil, true) }},
 			{Name: "serve-yield", Weight: 3, Bubble: true, Run: func(e *Env) {
 				t := e.T
@@ -25,7 +33,7 @@ func init() {
 				newSrvWorld(e, cfg).run()
 			}},
 		},
-		MustProbes: []string{"yield-parked", "closenotify-from-task", "back-to-back-accept", "deferred-answer", "sctp-handler-parked"},
+		MustProbes: []string{"yield-parked", "closenotify-from-task", "back-to-back-accept", "deferred-answer", "sctp-handler-parked", "answer-write-stalled", "late-connection"},
 	})
 	register(&Property{
 		ID: "C09", Level: "exploration",
